@@ -490,7 +490,7 @@ pub fn run_tdepth(sink: &mut Sink, _thorough: bool, seed: u64) {
         // 2 or 3 whatever their length, so all are accepted: the budget a container takes must be given back when it closes
         // (a `check_recursion!` whose exit is skipped on some path leaks one level per sibling and fails near 127 siblings).
         if !nolimit {
-            for kind in [5usize, 6, 7, 3, 0] {
+            for kind in [5usize, 6, 7, 0, 1, 2, 3, 4, 8, 9] {
                 for n in [100usize, 126, 127, 128, 130, 300] {
                     let (es, pre, post, l) = layer(kind, Schema::Bool);
                     let elem = format!("{}true{}", pre, post);
